@@ -44,6 +44,8 @@ KidsEncodableOK == (Live /\ Rec.op = "kids") => (Rec.panicked = (31 \in S(Rec.x)
 MustOK == (Live /\ Rec.op = "must") =>
             /\ Rec.panicked = ~M!Encodable(S(Rec.x), S(Rec.y))
             /\ (~Rec.panicked => S(Rec.z) = M!Interleave(S(Rec.x), S(Rec.y)))
+\* op = "deep": a vertex inserted into a point index deeper than 32 levels; wide = its deepest pixel address needs 33 bits
+DeepOK == (Live /\ Rec.op = "deep") => (Rec.reported = Rec.wide)
 \* op = "decode": arbitrary 64-bit z, fx/fy = FromZ(z): must re-encode to z
 DecodeOK == (Live /\ Rec.op = "decode") => M!Interleave(S(Rec.fx), S(Rec.fy)) = S(Rec.z)
 
